@@ -3,3 +3,11 @@ package checks
 import "sort"
 
 func sortStrings(s []string) { sort.Strings(s) }
+
+func copyFiles(m map[string]string) map[string]string {
+	out := make(map[string]string, len(m))
+	for k, v := range m {
+		out[k] = v
+	}
+	return out
+}
